@@ -246,6 +246,23 @@ func init() {
 			}
 		},
 	}
+	plans["C08"] = &Plan{
+		Level: "exploration",
+		Rule: "two monitors, each worker a fresh process (so first-use compilation races happen once per batch). (1) histories of concurrent Get/Compute calls on a private instance of the RCU program cache (real code, through verifbridge.PCache): 2-12 goroutines, 1-40 keys (distinct runtime types) with unique values, compute functions that yield 0-3 times or fail with probability 1/8; every 5th history uses 300-3000 keys to force copy-on-write growth and rehash under lock-free readers; call/return recorded at the client boundary with one atomic logical clock; checked with porcupine (partitioned by key) against a sequential map: Get returns the stored value or nil, Compute stores its value only if absent and not failed. A checker timeout is inconclusive. (2) codec rounds: 2-16 goroutines released by a barrier run 10 calls per type (Marshal of value and pointer, encoder.Encode under a random option set, Unmarshal under 2 configs and into interface{}, Pretouch, Valid, Get) over 1-8 types that no codec exists for yet (fresh reflect.StructOf types with unique field names; in the first 3 rounds of a process the recursive/embedded catalogue types), half of them in the same order, half shuffled; afterwards each call is run alone and must give the identical result. The race-detector runs report data races on caches, pools and tables (deduplicated by the innermost sonic frames of the two stacks)",
+		Assumptions: []string{"one atomic counter ticked before each call and after each return orders operations consistently with real time", "the race detector reports the unsynchronised conflicting accesses it observes; absence of a report is not absence of a race", "only executions (interleavings) actually produced are decided"},
+		MinEvals:    1500, MinEvalsThorough: 100000,
+		// a watchdog expiry is inconclusive here: an instrumented, oversubscribed run can be that slow
+		HangIsViolation: false,
+		Runs: func(string) []*Run {
+			return []*Run{
+				{Name: "plain", Flavor: "plain", NBatch: n(4, 16), TimeoutS: n(900, 6000)},
+				{Name: "plain-2procs", Flavor: "plain", NBatch: n(3, 8), Env: []string{"GOMAXPROCS=2"}, TimeoutS: n(900, 6000)},
+				// 4 procs per instrumented worker: the batches run side by side on 16 cores
+				{Name: "race", Flavor: "race", Mode: "race", NBatch: n(3, 16), Env: []string{"GOMAXPROCS=4"}, TimeoutS: n(1200, 6000)},
+				{Name: "race-vm-optdec", Flavor: "race", Mode: "race", NBatch: n(1, 8), Env: []string{"GOMAXPROCS=4", "SONIC_ENCODER_USE_VM=1", "SONIC_USE_OPTDEC=1"}, TimeoutS: n(1200, 6000)},
+			}
+		},
+	}
 	plans["C18"] = &Plan{
 		Level: "exploration",
 		Rule: "single-switch metamorphic relations: for a switch S and a random setting R of the 15 other switches, the same value/document is run with R and with R+S and the difference must be exactly S's documented effect: EscapeHTML == encoding/json.HTMLEscape(out_R); SortMapKeys changes member order only (and top-level map keys ascend); NoNullSliceOrMap == out_R of the value with nil slices/maps made empty; ValidateString(encode) == out_R with invalid UTF-8 replaced by \\ufffd; EncodeNullForInfOrNan == out_R of the value with NaN/Inf replaced by a sentinel, sentinel -> null, and no change without NaN/Inf; CompactMarshaler changes no token; NoQuoteTextMarshaler/NoValidateJSONMarshaler change nothing for types without such marshalers; NoEncoderNewline only removes the stream encoder's newline; UseInt64/UseNumber change only how numbers land in interface{}; CopyString/NoValidateJSONSkip change nothing on valid documents; DisallowUnknownFields agrees with encoding/json's DisallowUnknownFields on which documents have unknown keys and changes no accepted value; ValidateString(decode) changes nothing for clean strings and equals decoding the UTF-8-corrected document; UseUnicodeErrors changes nothing without lone surrogate escapes and never changes a value silently; CaseSensitive == encoding/json on the document without the keys that match only case-insensitively. Entry points: encoder.Encode/EncodeInto/MarshalToString/MarshalIndent/stream encoder vs Froze().Marshal, decoder.Decoder+SetOptions/UnmarshalFromString vs Froze().Unmarshal with the same switches. distinct = hash(switch, other switches, type, value/document)",
